@@ -10,7 +10,8 @@ THEOREMS = ["C16_flush", "C16_consumable", "C16_header", "C16_model_header", "C1
             "C16_model_meets_spec_partial",
             "C16_pop_stamp_discipline", "C16_pop_loop_facts", "C16_pop_level_core",
             "C16_retry_endcollect", "C16_nest_spec", "C16_nest", "C16_model_meets_spec_populate",
-            "C16_populate_position", "C16_populate_dest_rows"]
+            "C16_populate_position", "C16_populate_dest_rows",
+            "C16_populate_level_dest_rows", "C16_populate_fib_level_dest"]
 COQ_IMPORTS = "From FT Require Import Model.Base Model.Obs Model.C16Metrics Model.C16Nest Model.C16Check."
 CHECK_VO = ["Model/C16Check.v"]
 CHECKER = "c16_checker"
@@ -135,7 +136,10 @@ def gen_case(rng, depth=None, canon=None):
     rng.shuffle(keys)
     ths = sorted(rng.sample([2, 3, 4, 7, 1000], rng.choice([2, 3])))
     rng.shuffle(ths)
-    ref = rng.random() < 0.25 and not levels[-1][2] and levels[-1][4] is None
+    # untraced reference lookups done by the bodies (bit mask): 1 = the element just reached on the
+    # innermost fiber, 2 = ANOTHER stored coordinate of the fiber of the enclosing loop, 4 = an element
+    # of a scratch fiber whose rank is not part of the nest.  None of them may leave a mark in a trace.
+    ref = rng.choice([1, 2, 2, 3, 4, 6, 7]) if rng.random() < 0.35 else 0
     return {"ref": ref, "flat": flat, "levels": levels, "inputs": inputs, "z": z, "zshape": zshape, "shapes": shapes,
             "skip": rng.choice([0, 0, 2, 3]), "keys": keys, "thresholds": ths}
 
@@ -178,6 +182,47 @@ def streams(tier, rng):
     yield ("formats-project", [c for c in (gen_case(rng, depth=rng.choice([1, 2, 2, 3]), canon=True)
                                            for _ in range(n)) if any(l[2] or l[3] or l[4] is not None
                                                                      for l in c["levels"])][:n // 2], False)
+    yield ("insert-gaps", [gen_gap_case(rng) for _ in range(n // 6)], False)
+
+
+def gen_gap_case(rng):
+    """an INSERTING populate into a dense compressed z whose gaps of width 1 are filled by the source:
+    a newly inserted (and kept) coordinate c is directly followed by a stored c+1 and the source goes
+    on beyond c+1, so the next populate_read scan (iterRange(old_end, b_coord)) starts at c+1"""
+    D = rng.choice([1, 1, 2])
+    n0 = rng.randint(6, 12)
+    shapes = [n0] + [rng.randint(2, 4) for _ in range(D - 1)]
+    nz = rng.choice([1, D])
+
+    def sub(depth, sh):
+        if depth == 0:
+            return rng.randint(1, 9)
+        cs = [c for c in range(sh[0]) if rng.random() < 0.6] or [rng.randrange(sh[0])]
+        return [[c, sub(depth - 1, sh[1:])] for c in cs]
+    g, off = rng.choice([2, 3, 3]), rng.randrange(3)
+    zc = [c for c in range(n0) if c % g != off % g and rng.random() < 0.85]
+    z = [[c, sub(nz - 1, shapes[1:])] for c in zc]
+    inputs = []
+    for _ in range(2):
+        sc = [c for c in range(n0) if rng.random() < rng.choice([0.5, 0.7, 0.9])] or [0]
+        inputs.append([[c, sub(D - 1, shapes[1:])] for c in sc])
+    if rng.random() < 0.7:
+        src = ["F", 0]
+    else:
+        src = ["A", 0, 1]
+    levels = [[True, src, False, False, None, n0]]
+    for i in range(1, D):
+        levels.append([i < nz, ["F", 0], False, False, None, shapes[i]])
+    keys = [[0, 3, 0], [0, 4, 0]]
+    opt = [[0, 0, 0], [0, 2, 1]] + ([[0, 1, 2], [0, 1, 3]] if src[0] == "A" else [])
+    for i in range(1, D):
+        opt += [[i, 0, 0]] + ([[i, 2, 1], [i, 3, 0], [i, 4, 0]] if i < nz else [])
+    keys += [k for k in opt if rng.random() < 0.6]
+    rng.shuffle(keys)
+    ths = sorted(rng.sample([2, 3, 4, 7, 1000], 2))
+    rng.shuffle(ths)
+    return {"ref": 0, "flat": None, "levels": levels, "inputs": inputs, "z": z, "zshape": shapes[:nz],
+            "shapes": shapes, "skip": rng.choice([0, 0, 0, 3]), "keys": keys, "thresholds": ths}
 
 
 def has_empty(t):
@@ -198,7 +243,7 @@ def describe(case):
             "dest_rank_U": any(l[3] for l in case["levels"]),
             "projection_level": any(l[4] is not None for l in case["levels"]),
             "flattened_rank": case.get("flat") is not None,
-            "body_getPayloadRef": bool(case.get("ref")),
+            "body_getPayloadRef": int(case.get("ref") or 0),
             "empty_elements_in_inputs": any(has_empty(t) for t in case["inputs"]),
             "z_prepopulated": bool(case["z"]),
             "n_keys": len(case["keys"])}
@@ -210,9 +255,9 @@ def case_to_coq(c):
     lv = L.lst("(Build_level %s %s %s %s %s %s)" % (L.b(p), src(s), L.b(u), L.b(zu), L.opt(pj, L.z), L.z(sh))
                for p, s, u, zu, pj, sh in c["levels"])
     keys = L.lst("(%s, %s, %s)" % (L.z(a), L.z(b_), L.z(d)) for a, b_, d in c["keys"])
-    return "(Build_c16_case %s %s %s %s %s %s %s %s)" % (
+    return "(Build_c16_case %s %s %s %s %s %s %s)" % (
         lv, L.lst(L.tree(t) for t in c["inputs"]), L.tree(c["z"]), L.zlist(c["zshape"]),
-        L.z(c["skip"]), keys, L.zlist(c["thresholds"]), L.b(c.get("ref", False)))
+        L.z(c["skip"]), keys, L.zlist(c["thresholds"]))
 
 
 # ------------------------------------------------------------------ implementation driver
@@ -284,31 +329,48 @@ def _one_run(case, n, consumable, tmpdir, tag, retry=False):
             Z.setFormat(RANKS[i], "U")
     m = case["skip"]
 
-    def nest(i, env, z, point):
+    ref = int(case.get("ref") or 0)
+    scratch = None
+    if ref & 4:
+        from fibertree import Fiber
+        scratch = Fiber([0, 2], [1, 1])
+        scratch.getRankAttrs().setId("SCR")
+
+    def lookups(i, stack, fib0, c):
+        # reference lookups without trace=: Fiber.getPayloadRef must not touch the metrics state
+        if ref & 1 and i == D - 1 and not levels[i][2] and levels[i][4] is None:
+            fib0.getPayloadRef(c)
+        if ref & 2 and stack:
+            f, cur = stack[-1]
+            other = [x for x in f.getCoords() if x != cur]
+            if other:
+                f.getPayloadRef(other[-1])
+        if ref & 4 and i == D - 1:
+            scratch.getPayloadRef(2)
+
+    def nest(i, env, z, point, stack=()):
         if i == D:
             if z is not None and not (m > 0 and sum(point) % m == 0):
                 z += 1
             return
         pop, s, _u, _zu, proj, _sh = levels[i]
+        src0 = env[s[1]]
         if proj is not None:
             a_n = env[s[1]].project(trans_fn=lambda c_, k_=proj: c_ + k_, tick=True,
                                     rank_id=RANKS[i], coord_ex=0)
             for c, (zr, p) in (z << a_n).iterOccupancy(tick=False):
-                nest(i + 1, _bind(env, s, p), zr, point + [c])
+                lookups(i, stack, src0, c - proj)
+                nest(i + 1, _bind(env, s, p), zr, point + [c], stack + ((src0, c - proj),))
             return
         fib = env[s[1]] if s[0] == "F" else env[s[1]] & env[s[2]]
-        # innermost body: an untraced reference lookup of the element just reached
-        do_ref = case.get("ref") and i == D - 1 and not _u
         if pop:
             for c, (zr, p) in z << fib:
-                if do_ref:
-                    env[s[1]].getPayloadRef(c)
-                nest(i + 1, _bind(env, s, p), zr, point + [c])
+                lookups(i, stack, src0, c)
+                nest(i + 1, _bind(env, s, p), zr, point + [c], stack + ((src0, c),))
         else:
             for c, p in fib:
-                if do_ref:
-                    env[s[1]].getPayloadRef(c)
-                nest(i + 1, _bind(env, s, p), z, point + [lin(c)])
+                lookups(i, stack, src0, c)
+                nest(i + 1, _bind(env, s, p), z, point + [lin(c)], stack + ((src0, c),))
 
     def _bind(env, s, p):
         e = list(env)
